@@ -1007,6 +1007,176 @@ async fn isolation(r: &mut Rng) -> (String, String) {
     (sig, "ok".into())
 }
 
+/// C10 / C07: answers to open requests under unusual circumstances.
+///   0: the accept / reject future is cancelled while it waits for a slot of the full event queue: the request
+///      must still be answered (as dropped = rejected), and after everything is dropped both dispatchers end Ok
+///   1: `PortsExhausted::Wait(Some(limit))` with free ports and a listener that answers later than the limit:
+///      the time limit is about local ports and request credits, not about the listener's answer
+///   2: exactly connect_queue unanswered requests in a listener that is not polled, then all clients of the
+///      requesting endpoint are dropped: no protocol error, the listener gets every request, then the end
+async fn answers(r: &mut Rng) -> (String, String) {
+    use remoc::chmux::PortsExhausted;
+    let variant = r.below(3);
+    let mut ca = cfg(r, None);
+    let mut cb = cfg(r, None);
+    ca.max_ports = 100;
+    cb.max_ports = 100;
+    match variant {
+        0 => {
+            cb.shared_send_queue = 1;
+            cb.transport_send_queue = 1;
+            cb.connect_queue = 8;
+            let reject = r.chance(1, 2);
+            let sig = format!("answers:cancel:{}", if reject { "reject" } else { "accept" });
+            let mut p = conn::connect(ca, cb).await;
+            let ((_ta, mut ra_h), (mut tb_h, _rb_h)) = conn::open_port(&mut p).await;
+            // B cannot write: its queues fill up with the helper port's traffic
+            p.net.b2a.set_sink_ready(false);
+            for _ in 0..8 {
+                let _ = tb_h.try_send(&Bytes::from_static(b"h"));
+                quiesce().await;
+            }
+            let conn_a = match p.a_client.connect_ext(None, true).now_or_never() {
+                Some(Ok(c)) => c,
+                _ => return (sig, "ok".into()),
+            };
+            let task = tokio::spawn(conn_a);
+            quiesce().await;
+            let req = match p.b_listener.inspect().now_or_never() {
+                Some(Ok(Some(req))) => req,
+                _ => return (sig, "FAIL: C10 the request did not reach the listener".into()),
+            };
+            // the answer waits for a queue slot; its future is dropped
+            let answered = if reject { req.reject(false).now_or_never().is_some() } else { req.accept().now_or_never().is_some() };
+            quiesce().await;
+            p.net.b2a.set_sink_ready(true);
+            for _ in 0..6 {
+                quiesce().await;
+                let _ = recv_all_now(&mut ra_h).await;
+            }
+            if !task.is_finished() {
+                return (sig, format!("FAIL: C10 an open request was never answered after its {} future was cancelled while waiting for the event queue (answer completed at once: {answered})", if reject { "reject" } else { "accept" }));
+            }
+            let res = task.await.unwrap();
+            if !answered && !matches!(res, Err(ConnectError::Rejected)) {
+                return (sig, format!("FAIL: C10 a request whose answer was cancelled resolved as {:?} instead of Rejected", res.map(|_| ())));
+            }
+            // C07: everything dropped => both dispatchers end successfully
+            drop((_ta, ra_h, tb_h, _rb_h));
+            let Pair { a_client, a_listener, b_client, b_listener, mut mux_a, mut mux_b, .. } = p;
+            drop((a_client, a_listener, b_client, b_listener));
+            for _ in 0..6 {
+                quiesce().await;
+            }
+            if !mux_a.is_finished() || !mux_b.is_finished() {
+                return (sig, "FAIL: C07 dispatchers did not end after everything was dropped (a request is still outstanding)".into());
+            }
+            let (ea, eb) = ((&mut mux_a).await.unwrap(), (&mut mux_b).await.unwrap());
+            if ea.is_err() || eb.is_err() {
+                return (sig, format!("FAIL: C07 dispatchers ended with {} / {}", mux_class(&ea), mux_class(&eb)));
+            }
+            (sig, "ok".into())
+        }
+        1 => {
+            let limit = Duration::from_millis(*r.pick(&[5u64, 50, 300]));
+            ca.ports_exhausted = PortsExhausted::Wait(Some(limit));
+            let accept = r.chance(2, 3);
+            let sig = format!("answers:slowlistener:{}", if accept { "accept" } else { "reject" });
+            let mut p = conn::connect(ca, cb).await;
+            let c = p.a_client.clone();
+            let task = tokio::spawn(async move { c.connect().await.map(|_| ()) });
+            quiesce().await;
+            let req = match p.b_listener.inspect().now_or_never() {
+                Some(Ok(Some(req))) => req,
+                _ => return (sig, "FAIL: C10 the request did not reach the listener".into()),
+            };
+            tokio::time::sleep(limit * 4).await;
+            quiesce().await;
+            if task.is_finished() {
+                let res = task.await.unwrap();
+                return (sig, format!("FAIL: C10 connect gave up with {res:?} after the local-exhaustion time limit {limit:?} although no port or credit was missing; the listener had not answered yet"));
+            }
+            let keep = if accept { Some(req.accept().await) } else { req.reject(false).await; None };
+            for _ in 0..4 {
+                quiesce().await;
+            }
+            if !task.is_finished() {
+                return (sig, "FAIL: C10 connect still pending after the listener answered".into());
+            }
+            let res = task.await.unwrap();
+            match (accept, &res) {
+                (true, Ok(())) | (false, Err(ConnectError::Rejected)) => {}
+                _ => return (sig, format!("FAIL: C10 connect answered late resolved as {res:?}")),
+            }
+            drop(keep);
+            (sig, "ok".into())
+        }
+        _ => {
+            let q = r.range(1, 3) as u16;
+            cb.connect_queue = q;
+            let wait = r.chance(1, 2);
+            let sig = format!("answers:fullqueue:q{q}:{}", if wait { "wait" } else { "nowait" });
+            let p = conn::connect(ca, cb).await;
+            let Pair { a_client, a_listener, b_client, mut b_listener, mut mux_a, mut mux_b, .. } = p;
+            let mut conns = Vec::new();
+            for _ in 0..q {
+                match a_client.connect_ext(None, wait).now_or_never() {
+                    Some(Ok(c)) => conns.push(tokio::spawn(c)),
+                    _ => break,
+                }
+            }
+            quiesce().await;
+            // all clients of A go away while B's listener has not been polled
+            drop(a_client);
+            for _ in 0..4 {
+                quiesce().await;
+            }
+            if mux_a.is_finished() || mux_b.is_finished() {
+                let ea = if mux_a.is_finished() { Some(mux_class(&(&mut mux_a).await.unwrap())) } else { None };
+                let eb = if mux_b.is_finished() { Some(mux_class(&(&mut mux_b).await.unwrap())) } else { None };
+                return (sig, format!("FAIL: C07 the connection failed ({ea:?} / {eb:?}) when the clients were dropped with {} unanswered requests in a listener queue of {q}", conns.len()));
+            }
+            // the listener hands out every request (dropped here = rejected), then reports the end
+            let mut seen = 0;
+            for _ in 0..(3 * q as usize + 6) {
+                match b_listener.inspect().now_or_never() {
+                    Some(Ok(Some(req))) => {
+                        seen += 1;
+                        drop(req)
+                    }
+                    Some(Ok(None)) => break,
+                    Some(Err(e)) => return (sig, format!("FAIL: C07 listener error {e:?} on a healthy connection")),
+                    None => {}
+                }
+                quiesce().await;
+            }
+            // (the listener may report the end before it has handed out every queued request: it picks between its
+            // two queues at random once the remote clients are gone; what it did not hand out is refused when it is dropped)
+            let _ = seen;
+            drop((a_listener, b_client, b_listener));
+            for _ in 0..4 {
+                quiesce().await;
+            }
+            for (i, c) in conns.into_iter().enumerate() {
+                if !c.is_finished() {
+                    return (sig, format!("FAIL: C10 connect {i} unanswered although its request was dropped by the listener or with it"));
+                }
+            }
+            for _ in 0..6 {
+                quiesce().await;
+            }
+            if !mux_a.is_finished() || !mux_b.is_finished() {
+                return (sig, "FAIL: C07 dispatchers did not end after everything was dropped".into());
+            }
+            let (ea, eb) = ((&mut mux_a).await.unwrap(), (&mut mux_b).await.unwrap());
+            if ea.is_err() || eb.is_err() {
+                return (sig, format!("FAIL: C07 dispatchers ended with {} / {}", mux_class(&ea), mux_class(&eb)));
+            }
+            (sig, "ok".into())
+        }
+    }
+}
+
 pub fn exec(inp: &[u128]) -> (Vec<u128>, String, String) {
     if inp.len() < 2 {
         return (vec![98], "net:malformed".into(), "ok".into());
@@ -1024,6 +1194,7 @@ pub fn exec(inp: &[u128]) -> (Vec<u128>, String, String) {
             4 => blocking(&mut r).await,
             5 => stream_transport(&mut r).await,
             6 => isolation(&mut r).await,
+            7 => answers(&mut r).await,
             _ => faults(&mut r).await,
         };
         remoc::exec::verif::set_defer_seed(0);
